@@ -22,6 +22,9 @@ ASSUMPTIONS = ["distinct powers of two: OR of members = sum over the set of memb
 
 
 def run(ctx) -> None:
+    from . import objmodel
+
+    ctx.guard("C10.enum", objmodel.unique_classes, "C10.enum", ("Tip",), "members of the exported `Tip` are no instances of the `Tip` the validators test against: they are read as tip numbers or refused")
     ctx.guard("C10.enum", enum_table)
     ctx.guard("C10.int-map", int_map)
     ctx.guard("C10.aggregate", aggregate_records)
